@@ -163,6 +163,9 @@ class Session:
         self.cf = cf = cfm.Crazyflie(rw_cache=cache_dir)
         cf.packet_received.add_callback(self._on_rx)
         cf.connected.add_callback(self._on_connected)
+        self.lost_evt = vthreading.Event()
+        cf.connection_lost.add_callback(lambda uri, msg: self.lost_evt.set())
+        cf.connection_failed.add_callback(lambda uri, msg: self.lost_evt.set())
 
         orig_retry = cf._no_answer_do_retry
 
@@ -210,9 +213,12 @@ class Session:
         except Exception:
             present = False
         label = (self.cache_label.get(kind) or 'own') if present else 'none'
-        self.ev.append({'e': 'start', 'kind': kind, 'ver': 2 if self.v2 else 1, 'cached': label,
-                        'crc': list(self.crc[kind].to_bytes(4, 'little')),
-                        'resend': bool(self.dev.needs_resending)})
+        ev = {'e': 'start', 'kind': kind, 'ver': 2 if self.v2 else 1, 'cached': label,
+              'crc': list(self.crc[kind].to_bytes(4, 'little')),
+              'resend': bool(self.dev.needs_resending)}
+        if self.entries[kind] is not self.sc[kind]:
+            ev['dev'] = tocdev.table_json(self.entries[kind])     # the table the device has during this attempt
+        self.ev.append(ev)
 
     def restore(self):
         logm, paramm, _ = self._mods
@@ -265,7 +271,8 @@ class Session:
         # starts: a packet of the old link still being handled belongs to the old ones
         self._fresh = True
         self.connected_evt.clear()
-        self.cf.open_link('tocsim://0/%d' % attempt)
+        # `same_uri`: every attempt uses the same URI string (the normal reconnect of an application)
+        self.cf.open_link('tocsim://0' if self.sc.get('same_uri') else 'tocsim://0/%d' % attempt)
 
     # ---- projections
     def project(self, kind, objs=None):
@@ -395,8 +402,28 @@ def execute(sc, mutant=None):
                         ses.cf._toc_cache = cm.TocCache(ro_cache=ro_dir, rw_cache=cache_dir)
 
                 def user():
+                    if sc.get('reconnect'):
+                        # first attempt: the device still has its old (smaller) tables; the link dies in the
+                        # middle of a download; the application opens the link again on the same object
+                        rc = sc['reconnect']
+                        ses.entries = {'log': rc['log'], 'param': rc['param']}
+                        ses.crc = dict(rc['crc'])
+                        ses.dev.set_tables(rc['log'], rc['param'], rc['crc']['log'], rc['crc']['param'])
+                        ses.dev.faults.script = rc['faults']
+                        ses.open(1)
+                        for _ in range(200):
+                            if ses.lost_evt.wait(0.35) or ses.connected_evt.is_set():
+                                break
+                            ses.dev.flush_held()
+                        vtime.sleep(rc.get('pause', 0.05))
+                        # the device comes back reflashed: the tables of the scenario
+                        ses.entries = {'log': sc['log'], 'param': sc['param']}
+                        ses.crc = {'log': 0x1A2B3C4D, 'param': 0x5E6F7081}
+                        ses.crc.update(sc.get('crc') or {})
+                        ses.dev.set_tables(sc['log'], sc['param'], ses.crc['log'], ses.crc['param'])
+                        ses.dev.faults.script = sc.get('faults') or {}
                     for c in range(sc.get('connects', 1)):
-                        ses.open(c + 1)
+                        ses.open(c + 1 + (1 if sc.get('reconnect') else 0))
                         # unsolicited value-updated notifications (MISC channel, command 1) that the
                         # firmware may send at any time, here before any table exists
                         for pid in sc.get('early_notify', ()):
@@ -895,7 +922,40 @@ def _mut_platform_every_reply():
     return _patch(P, '_platform_callback', cb)
 
 
+def _mut_stale_by_uri():
+    """the left-over test of TocFetcher compares the URI instead of the link object"""
+    import cflib.crazyflie.toc as tocm
+    F = tocm.TocFetcher
+    orig_start, orig_cb = F.start, F._new_packet_cb
+
+    def start(self):
+        orig_start(self)
+        self._c03_uri = self.cf.link_uri
+
+    def cb(self, packet):
+        if self.cf.link is not None and self.cf.link_uri == getattr(self, '_c03_uri', None):
+            self._link = self.cf.link            # same URI: taken for the same connection
+        return orig_cb(self, packet)
+    u1, u2 = _patch(F, 'start', start), _patch(F, '_new_packet_cb', cb)
+    return lambda: (u1(), u2())
+
+
+def _mut_version_reset_by_dup():
+    """every link-source answer, also a duplicated late one, sets the protocol version back to -1"""
+    import cflib.crazyflie.platformservice as pm
+    P = pm.PlatformService
+    orig = P._crt_service_callback
+
+    def cb(self, pk):
+        if pk.channel == pm.LINKSERVICE_SOURCE and self._callback is None:
+            self._protocolVersion = -1
+        return orig(self, pk)
+    return _patch(P, '_crt_service_callback', cb)
+
+
 MUTANTS.update({
+    'stale_by_uri': _mut_stale_by_uri,
+    'version_reset_by_dup': _mut_version_reset_by_dup,
     'accept_ge': _fetcher_variant('accept_ge'),
     'toc_len': _mut_toc_len,
     'cache_tolerant': _mut_cache_tolerant,
@@ -1066,6 +1126,32 @@ def scenarios(tier, rng):
                     if k % 5 == 0:
                         sc['faults']['log'] = {str(1 + k % 3): rng.choice(FAULT_ACTS)}
                     out.append(('setup', sc))
+    # -- setup on big tables: a late duplicate of the link-source / version reply must not change the
+    #    protocol generation the tables are fetched with (V2 device, more than 255 entries)
+    for (a, b, pos, j) in ([(300, 3, 1, 1), (3, 257, 1, 2)] if quick else
+                           [(300, 3, 1, 1), (3, 257, 1, 2), (257, 258, 1, 3), (300, 2, 2, 1), (2, 300, 2, 2)]):
+        out.append(('setup', make_scenario(rng, a, b, 10, faults={'setup': {str(pos): ['deliver', ['hold', j]]}})))
+    # -- reconnect: the link dies in the middle of a download, the application opens the link again on
+    #    the SAME Crazyflie object -- to the same URI (the normal case) or another one -- and the device
+    #    has been reflashed in between: larger tables, other checksums.  Only the second attempt connects.
+    k = 0
+    # (old tables, new tables, table whose download is interrupted, reply the link dies on); the new
+    # table is much larger than the old one so that a fetcher that survived finishes long before it
+    cases = [((3, 2), (14, 2), 'log', 3), ((3, 2), (14, 1), 'log', 4), ((4, 1), (16, 2), 'log', 5),
+             ((2, 2), (2, 12), 'param', 2), ((1, 3), (2, 14), 'param', 3), ((3, 3), (6, 5), 'log', 2),
+             ((0, 2), (9, 2), 'log', 1), ((2, 1), (3, 9), 'param', 1)]
+    for (old, new, kind, pos) in cases:
+        for pver in (10, 3):
+            k += 1
+            sc = make_scenario(rng, new[0], new[1], pver, same_uri=(k % 4 != 0))
+            for e in sc['param'][:2]:
+                e['type'] &= ~0x10          # the small table is through at once
+            o = make_scenario(rng, old[0], old[1], pver)
+            sc['reconnect'] = {'log': o['log'], 'param': o['param'], 'crc': o['crc'],
+                               'faults': {kind: {str(pos): ['fail']}}, 'pause': [0.05, 0.5, 1.2][k % 3]}
+            if k % 5 == 0:
+                sc['faults'] = {'log': {str(rng.randint(1, 4)): rng.choice(FAULT_ACTS)}}
+            out.append(('reconnect', sc))
     # -- reset: the application resets the log subsystem after connected (one more RESET reply),
     #    also with an empty log table and with duplicated RESET replies
     for (a, b) in [(0, 2), (2, 2), (0, 0)]:
@@ -1122,7 +1208,7 @@ def scenarios(tier, rng):
 def _jsonable(sc):
     sc = copy.deepcopy(sc)
     for kind in ('log', 'param'):
-        for e in sc[kind]:
+        for e in sc[kind] + (sc['reconnect'][kind] if sc.get('reconnect') else []):
             for k in ('group', 'name', 'value', 'default'):
                 if k in e:
                     e[k] = list(e[k])
@@ -1132,7 +1218,7 @@ def _jsonable(sc):
 def _unjson(sc):
     sc = copy.deepcopy(sc)
     for kind in ('log', 'param'):
-        for e in sc[kind]:
+        for e in sc[kind] + (sc['reconnect'][kind] if sc.get('reconnect') else []):
             for k in ('group', 'name', 'value', 'default'):
                 if k in e:
                     e[k] = bytes(e[k])
@@ -1257,7 +1343,9 @@ def _summary(sc):
             'resend': sc['resend'], 'faults': sc['faults'], 'policy': sc['policy'],
             'connects': sc.get('connects', 1), 'cache': bool(sc.get('cache')),
             'cache_edit': sc.get('cache_edit'), 'cache_ro': bool(sc.get('cache_ro')),
-            'post_reset': bool(sc.get('post_reset')), 'crc': {k: '%08X' % v for k, v in (sc.get('crc') or {}).items()}}
+            'post_reset': bool(sc.get('post_reset')), 'same_uri': bool(sc.get('same_uri')),
+            'reconnect': ({'log_entries': len(sc['reconnect']['log']), 'param_entries': len(sc['reconnect']['param']),
+                           'faults': sc['reconnect']['faults']} if sc.get('reconnect') else None), 'crc': {k: '%08X' % v for k, v in (sc.get('crc') or {}).items()}}
 
 
 def mutant_suite(rng, tier):
@@ -1307,6 +1395,15 @@ def mutant_suite(rng, tier):
             out.append((sc, ('platform_every_reply',)))
     # the application resets the log subsystem of a device with an empty log table
     out.append((make_scenario(rng, 0, 2, 10, post_reset=True), ('toc_len',)))
+    # link failure in the middle of the log download, reconnect to the same URI, reflashed device
+    for pos in (3, 4):
+        sc = make_scenario(rng, 14, 1, 10, same_uri=True)
+        sc['param'][0]['type'] &= ~0x10
+        o = make_scenario(rng, 3, 2, 10)
+        sc['reconnect'] = {'log': o['log'], 'param': o['param'], 'crc': o['crc'], 'faults': {'log': {str(pos): ['fail']}}}
+        out.append((sc, ('stale_by_uri',)))
+    # a late duplicate of the link-source answer, V2 device with more than 255 log entries
+    out.append((make_scenario(rng, 258, 2, 10, faults={'setup': {'1': ['deliver', ['hold', 1]]}}), ('version_reset_by_dup',)))
     return out
 
 
@@ -1365,7 +1462,7 @@ def main(tier, seed, replay=None):
     cfgs = ['MC_TocFetch_quick.cfg', 'MC_TocFetch_boundary_quick.cfg'] if quick else \
            ['MC_TocFetch_thorough.cfg', 'MC_TocFetch_boundary.cfg', 'MC_TocFetch_deep.cfg']
     bugs = ('offbyone', 'acceptany', 'earlydone', 'accessmask', 'trunc8',
-            'accepthigher', 'resetguard', 'versionrestarts', 'oldcache')
+            'accepthigher', 'resetguard', 'versionrestarts', 'oldcache', 'stalefetcher')
     gcfg = 'MC_TocFetch_quick.cfg' if quick else 'MC_TocFetch_tour.cfg'
     nsim = 150 if quick else 1000
     w = max(2, common.NCPU // 4)
